@@ -26,7 +26,7 @@ RESTOP_SIG = {'kind': 'second-stop-success-rewrites-message-and-reports-again'}
 
 
 # ======================================================================================= generator
-def gen_case(rng, p_ops=0.85, p_pause=0.35, resume_items=False):
+def gen_case(rng, p_ops=0.85, p_pause=0.35, resume_items=True):
     depth = rng.choice([2, 2, 3, 3, 3])
     defs = []
     for lvl in range(depth):
@@ -75,7 +75,10 @@ def gen_case(rng, p_ops=0.85, p_pause=0.35, resume_items=False):
             prefs = ['running', 'running', 'inner', 'root', 'any', 'finished', 'item'] + \
                 (['again', 'again', 'parent', 'parent'] if i else [])
             r = rng.random()
-            if paused and r < 0.45 and (resume_items or not has_items):
+            if r > 0.93 and (resume_items or not has_items):
+                # a resume request addressed to a FINISHED (or any) execution; late results follow
+                o = {'at': at, 'op': 'resume', 'which': rng.randint(0, 7), 'pref': rng.choice(['finished', 'finished', 'again'])}
+            elif paused and r < 0.45 and (resume_items or not has_items):
                 o = {'at': at, 'op': 'resume', 'which': rng.randint(0, 7),
                      'pref': rng.choice(['paused', 'paused', 'root', 'again', 'any'])}
                 paused = False
@@ -169,21 +172,39 @@ class Mapper(object):
             pass
         return obj.id
 
+    def _cell_id(self, func, ranks):
+        """a captured id (repo patch 22: the operations capture plain ids when they are registered)"""
+        for c in func.__closure__ or ():
+            try:
+                o = c.cell_contents
+            except ValueError:
+                continue
+            if isinstance(o, str) and o in ranks:
+                return o
+        return None
+
     def op_item(self, op):
         func, args, in_tx = op
         name = getattr(func, '__name__', '')
         if name == '_start_task':
-            return {'k': 'postStartTask', 'n': self.task_rank.get(self._pk(func.__defaults__[0].task_ex)),
+            d = func.__defaults__
+            tid = d[3] if len(d) > 3 else self._pk(d[0].task_ex)
+            return {'k': 'postStartTask', 'n': self.task_rank.get(tid),
                     'first': bool(func.__defaults__[1])}
         if name == '_run_action':
             o = self._cell(func, lambda o: hasattr(o, 'task_ex') and hasattr(o, 'action_ex'))
-            return {'k': 'postRunAction', 'n': self.task_rank.get(self._pk(o.task_ex))} if o is not None else None
+            if o is not None:
+                return {'k': 'postRunAction', 'n': self.task_rank.get(self._pk(o.task_ex))}
+            d = self._cell(func, lambda o: isinstance(o, dict) and 'task_execution_id' in o)
+            return {'k': 'postRunAction', 'n': self.task_rank.get(d['task_execution_id'])} if d else None
         if name == '_check':
             o = self._cell(func, lambda o: hasattr(o, 'wf_ex') and hasattr(o, 'task_ex'))
-            return {'k': 'postCheck', 'n': self.wf_rank.get(self._pk(o.wf_ex))} if o is not None else None
+            wid = self._pk(o.wf_ex) if o is not None else self._cell_id(func, self.wf_rank)
+            return {'k': 'postCheck', 'n': self.wf_rank.get(wid)} if wid is not None else None
         if name == '_send_result':
             o = self._cell(func, lambda o: hasattr(o, 'wf_ex') and hasattr(o, 'wf_spec'))
-            return {'k': 'postSendResult', 'n': self.wf_rank.get(self._pk(o.wf_ex)), '_wf': self._pk(o.wf_ex)} if o is not None else None
+            wid = self._pk(o.wf_ex) if o is not None else self._cell_id(func, self.wf_rank)
+            return {'k': 'postSendResult', 'n': self.wf_rank.get(wid), '_wf': wid} if wid is not None else None
         if name == '_start_subworkflow':
             p = self._cell(func, lambda o: isinstance(o, dict) and 'task_execution_id' in o)
             return {'k': 'postStartSub', 'n': self.task_rank.get(p['task_execution_id']), 'idx': p['index']} if p else None
@@ -239,8 +260,9 @@ class Mapper(object):
                     res.append(fmt(self.op_item(op)))
             else:
                 res.append(fmt(self.item(('p', p))))
+        live = _live_job_ids(self.w)
         for j in self.w.jobs():
-            if j.func_name.endswith('_check_and_fix_integrity'):
+            if j.func_name.endswith('_check_and_fix_integrity') or j.id not in live:
                 continue
             res.append(fmt(self.item(('job', j))))
         return sorted(res)
@@ -368,11 +390,9 @@ def run_case(case, script=None, max_steps=500):
                 item = {k: v for k, v in mi.items() if not k.startswith('_')}
                 if swallowed and it[0] == 'p' and it[1].kind == 'posttx':
                     # post_tx_queue swallowed the exception of this (non-transactional) operation: what it
-                    # would have sent is lost
+                    # would have sent is lost (repaired by repo patch 22: a monitor hit and a disagreement now)
                     lost.append({'item': item, 'type': swallowed[0], 'step': len(events)})
-                    events.append({'ev': 'lose', 'item': item})
-                else:
-                    events.append({'ev': 'deliver', 'item': item})
+                events.append({'ev': 'deliver', 'item': item})
             robs.append(real_obs(w, mp))
 
         w.start_workflow('w0', {})
@@ -407,12 +427,6 @@ def run_case(case, script=None, max_steps=500):
                 o = ops[oi]
                 oi += 1
                 tgt = _choose(robs[-1], o, last_target[0])
-                if o['op'] in ('pause', 'resume') and robs[-1]['execs'][tgt][3] in FINAL and \
-                        any(t[6] is not None for t in robs[-1]['tasks']):
-                    # pause / resume of a FINISHED execution raises and is rolled back; with a with-items task in the
-                    # tree the update jobs scheduled inside that transaction stay in the scheduler's memory but are
-                    # dropped when they fail to capture their (rolled back) row: not modelled (docs/C10.md), not generated
-                    continue
                 do_stop(tgt, o.get('state'), o.get('msg'), op=o['op'])
             en = _enabled(w)
             if not en:
@@ -438,8 +452,18 @@ def run_case(case, script=None, max_steps=500):
         cfg.CONF.clear_override('start_subworkflows_via_rpc', group='engine')
 
 
+def _live_job_ids(w):
+    """ids of the scheduled jobs that have a row: a job scheduled inside a transaction that was rolled back stays
+    in the scheduler's memory but can never capture its row; the dispatcher drops it without running it"""
+    from mistral.db.v2 import api as db_api
+    with db_api.transaction(read_only=True):
+        return set(j.id for j in db_api.get_scheduled_jobs())
+
+
 def _enabled(w):
-    return [e for e in w.enabled() if not (e[0] == 'job' and e[1].func_name.endswith('_check_and_fix_integrity'))]
+    live = _live_job_ids(w)
+    return [e for e in w.enabled() if not (e[0] == 'job' and (e[1].func_name.endswith('_check_and_fix_integrity')
+                                                                 or e[1].id not in live))]
 
 
 def _choose(obs, o, last=0):
